@@ -1,6 +1,7 @@
 package main
 
 import (
+	"context"
 	"fmt"
 	"os"
 	"path/filepath"
@@ -17,6 +18,7 @@ import (
 	"github.com/criyle/go-sandbox/pkg/mount"
 	"github.com/criyle/go-sandbox/ptracer"
 	"github.com/criyle/go-sandbox/runner"
+	"github.com/criyle/go-sandbox/runner/ptrace"
 )
 
 func init() { props["C17"] = runC17 }
@@ -118,6 +120,39 @@ func (j c17Job) run(devnull string) c17Result {
 			rest = append(rest, ln)
 		}
 		return c17Result{fmt.Sprintf("%v/%d err=%q fds[%s] %s made=%v opens=%d foreign-paths=%d", r.Status, r.ExitStatus, r.Error, fds, c17Lines(strings.Join(rest, "\n")), statErr == nil, okOpens, foreign), own}
+	case "fresh-program":
+		// the caller writes the program file and runs it by path under the tracing runner (with its filter), three times:
+		// a child that another goroutine forks in between holds a copy of the write descriptor until it execs
+		// (ETXTBSY for a moment); run alone or next to others, the result must be the same
+		var outs []string
+		for k := 0; k < 3; k++ {
+			path := filepath.Join(j.tmp, fmt.Sprintf("fresh-%d-%d", j.i, k))
+			data, _ := os.ReadFile(probePath())
+			f, err := os.OpenFile(path, os.O_CREATE|os.O_WRONLY|os.O_TRUNC, 0755)
+			if err != nil {
+				return c17Result{"cannot write the program: " + err.Error(), ""}
+			}
+			for off := 0; off < len(data); off += 1 << 16 {
+				f.Write(data[off:min(off+1<<16, len(data))])
+				runtime.Gosched()
+			}
+			f.Close()
+			ctx, cancel := context.WithTimeout(context.Background(), 20*time.Second)
+			devnull, _ := os.Open(os.DevNull)
+			out := newCapture()
+			r := (&ptrace.Runner{Args: []string{path, fmt.Sprintf("print %s; exit %d", tag, code)}, Env: []string{}, Files: []uintptr{devnull.Fd(), out.w.Fd(), out.w.Fd()},
+				Limit: bigLimit, Seccomp: allowAll(), Handler: allowHandler{}}).Run(ctx)
+			cancel()
+			devnull.Close()
+			outs = append(outs, fmt.Sprintf("%v/%d err=%q out=%q", r.Status, r.ExitStatus, r.Error, out.done()))
+			os.Remove(path)
+		}
+		return c17Result{strings.Join(outs, " | "), ""}
+	case "slow-sync":
+		// a launch whose caller takes its time at the synchronisation point: its child sits between fork and exec meanwhile
+		script := fmt.Sprintf("print %s; exit %d", tag, code)
+		r, out := runUnshareProbe(RunSpec{Script: script, SyncFunc: func(int) error { time.Sleep(25 * time.Millisecond); return nil }}, "", nil)
+		return c17Result{fmt.Sprintf("%v/%d err=%q out=%q", r.Status, r.ExitStatus, r.Error, out), ""}
 	case "ptrace-refused", "unshare-refused":
 		// launches that their caller refuses at the synchronisation point (a failing attach to a control group, say), several
 		// in a row: a failed launch of one run among healthy runs of others
